@@ -267,6 +267,22 @@ def prepare(tier, seed):
             except Exception as ex:   # harness failure: reported, never silently passed
                 import traceback
                 prep['errors'].append('T3 harness failed: ' + traceback.format_exc()[-2000:])
+        prep['t4'] = None
+        if prep['lean_build_ok']:
+            try:
+                import t4
+                prep['t4'] = t4.run(tier, seed, WORK, REPO)
+            except Exception:
+                import traceback
+                prep['errors'].append('T4 harness failed: ' + traceback.format_exc()[-2000:])
+        prep['t5'] = None
+        if prep['lean_build_ok']:
+            try:
+                import t5
+                prep['t5'] = t5.run(WORK, REPO)
+            except Exception:
+                import traceback
+                prep['errors'].append('T5 harness failed: ' + traceback.format_exc()[-2000:])
         prep['wall_s'] = round(time.time() - t0, 1)
         json.dump(prep, open(pj, 'w'))
         return prep
@@ -377,6 +393,51 @@ def run_check(pid, tier):
                 violations.append(({'property': pid, 'broken': 'tie', 'tie': 'T3 crates do not build',
                                     'detail': t3r['build_errors'][:1]}, False))
 
+    # (3b) T4: rustc probe crates
+    t4r = prep.get('t4')
+    if cfg.get('t4'):
+        if t4r is None:
+            violations.append(({'property': pid, 'broken': 'tie', 'tie': 'T4 harness', 'detail': prep['errors']}, False))
+        else:
+            fams = cfg['t4']
+            if 'pos' in fams or 'nostd' in fams or 'send' in fams:
+                for f in t4r['pos_failures']:
+                    is_send = any('Send' in e or 'cannot be sent' in e for e in f['errors'])
+                    is_nostd = f['config'] in ('nostd', 'typestate')
+                    if ('pos' in fams) or ('send' in fams and is_send) or ('nostd' in fams and is_nostd):
+                        violations.append(({'property': pid, 'broken': 'property',
+                                            'what': f"well-formed definition does not compile in configuration {f['config']}: " + '; '.join(f['errors'][:2]),
+                                            'dsl': f['dsl'], 'feature': f['feature'], 'config': f['config']}, True))
+                if 'pos' in fams and t3r:
+                    for f in t3r.get('compile_failures', []):
+                        violations.append(({'property': pid, 'broken': 'property', 'what': 'well-formed definition does not compile: ' + f['stderr'][-400:],
+                                            'dsl': f['dsl'], 'feature': f['feature']}, True))
+            for f in t4r['probe_failures']:
+                if f['kind'] in fams or (f['kind'] in ('method', 'types', 'new', 'accessor') and 'method' in fams):
+                    violations.append(({'property': pid, 'broken': 'property',
+                                        'what': f"{f['what']}: expected {f['expected']}, rustc says {f['got']}", 'dsl': f['dsl'],
+                                        'probe_kind': f['kind']}, True))
+            if 'illformed' in fams:
+                for f in t4r['illformed_accepted']:
+                    violations.append(({'property': pid, 'broken': 'property',
+                                        'what': f"ill-formed definition ({f['rule']}) compiles", 'dsl': f['dsl'], 'rule': f['rule']}, True))
+            if t4r['crate_errors']:
+                violations.append(({'property': pid, 'broken': 'tie', 'tie': 'T4 probe crate has errors outside any probe',
+                                    'detail': t4r['crate_errors'][:2]}, False))
+
+    # (4) T5: the real core functions on the whole finite error algebra
+    t5r = prep.get('t5')
+    if cfg.get('t5'):
+        if t5r is None or t5r.get('build_error'):
+            violations.append(({'property': pid, 'broken': 'tie', 'tie': 'T5 harness', 'detail': (t5r or {}).get('build_error') or prep['errors']}, False))
+        else:
+            for f in t5r['oracle_failures'][:3]:
+                violations.append(({'property': pid, 'broken': 'property', 'what': f['what'], 'core_call': f['row'],
+                                    'replay': 'cd /verif/rt/t5 && cargo run --offline   (prints the whole table)'}, True))
+            if t5r['diffs'] and not t5r['oracle_failures']:
+                violations.append(({'property': pid, 'broken': 'tie', 'tie': 'T5 core table (implementation vs model)',
+                                    'first': t5r['diffs'][0], 'count': len(t5r['diffs'])}, False))
+
     # evidence
     cov = {
         'obligations': len(thms), 'discharged': len(ok_thms),
@@ -402,6 +463,14 @@ def run_check(pid, tier):
             'impl_vs_model_disagreements': t3r['n_model_diffs'], 'impl_vs_oracle_failures': t3r['n_oracle_failures'],
             'crates_failed_to_build': len(t3r['build_errors']), 'samples': t3r['samples'][:2],
         } if t3r else None),
+        'rustc_probes': ({'well_formed_machines_compiled': t4r['pos_machines'], 'configurations': ['std', 'no_std lib', 'feature=dynamic', 'typestate-only no_std'],
+                          'failed_to_compile': len(t4r['pos_failures']), 'probes': t4r['probes'], 'probe_kinds': t4r['probe_kinds'],
+                          'probe_failures': len(t4r['probe_failures']), 'illformed_definitions': t4r['illformed'],
+                          'illformed_accepted': len(t4r['illformed_accepted']), 'assert_send_probes': t4r['send_probes'],
+                          'families_consumed': cfg.get('t4')} if (t4r and cfg.get('t4')) else None),
+        'core_algebra': ({'rows_exhaustive': t5r['rows'], 'impl_vs_model_disagreements': len(t5r['diffs']),
+                          'impl_vs_oracle_failures': len(t5r['oracle_failures']), 'sample': t5r.get('sample')}
+                         if (t5r and cfg.get('t5')) else None),
         'traces_validated_against_impl': (t3r or {}).get('scenarios', 0),
         'evaluations': (tie or {}).get('cases', 0),
         'distinct_nontrivial': (tie or {}).get('distinct_expanded', 0),
